@@ -283,20 +283,30 @@ class load(DataStreamProcessor):
 
     @staticmethod
     def rename_duplicate_headers(duplicate_headers, case_sensitive=True, deduplicate_format=' (%s)'):
-        counter = {}
+        def key_of(header):
+            return header if case_sensitive else header.lower()
+
+        taken = set(key_of(header) for header in duplicate_headers)
+        last_number = {}
+
+        def numbered(header, header_key):
+            # the next free "<header> (<n>)": never a name some other column already has
+            while True:
+                last_number[header_key] = last_number.get(header_key, 0) + 1
+                candidate = ('%s' + deduplicate_format) % (header, last_number[header_key])
+                if key_of(candidate) not in taken:
+                    taken.add(key_of(candidate))
+                    return candidate
+
         headers = []
         header_keys = []
         for header in duplicate_headers:
-            header_key = header
-            if not case_sensitive:
-                header_key = header_key.lower()
+            header_key = key_of(header)
+            if header_key in header_keys:
+                if header_keys.count(header_key) == 1:
+                    prev_index = header_keys.index(header_key)
+                    headers[prev_index] = numbered(headers[prev_index], header_key)
+                header = numbered(header, header_key)
             header_keys.append(header_key)
-            counter.setdefault(header_key, 0)
-            counter[header_key] += 1
-            if counter[header_key] > 1:
-                if counter[header_key] == 2:
-                    prev_index = header_keys.index(header_key) 
-                    headers[prev_index] = ('%s' + deduplicate_format) % (headers[prev_index], 1)
-                header = ('%s' + deduplicate_format) % (header, counter[header_key])
             headers.append(header)
         return headers
